@@ -10,7 +10,9 @@ from .. import pgen
 from .. import recipe as R
 from ..common import pages_label, run_recipe
 from ..engine import Result
+from .. import findings as findings_mod
 from ..pagemodel import analyze, group_values, headings_brought, reservation
+from .c03 import overflows
 
 ID = "C04"
 LEVEL = "exploration"
@@ -61,7 +63,9 @@ def _case(draw):
     src = draw(st.sampled_from([None, "table", "para"]))
     pl = tuple(draw(st.sampled_from(["first", "last", "all"])) for _ in range(3)) if draw(st.booleans()) else None
     new_page = strat == "page_by_new"
-    rec = pgen.make_table(heights, groups, ndata=draw(st.integers(1, 3)), subline=subline, page_by_levels=levels,
+    ndata = draw(st.integers(1, 3))
+    rel = [draw(st.sampled_from([1, 1, 2, 3])) for _ in range(ndata)] if (ndata >= 2 and draw(st.integers(0, 9)) < 4) else None
+    rec = pgen.make_table(heights, groups, ndata=ndata, rel_widths=rel, subline=subline, page_by_levels=levels,
                           new_page=new_page, pageby_row=draw(st.sampled_from([None, "column", "first_row"])) if new_page else None,
                           pageby_header=draw(st.sampled_from([None, True, False])), header=header, footnote=fn, source=src,
                           nrow=draw(st.integers(2, 30)), placements=pl, title=draw(st.booleans()),
@@ -163,6 +167,14 @@ def check(case) -> Result:
         return finish(res, case, pages, 0, 0)
     if n > 0 and any(not p.data for p in pages):
         res.fail("contiguity", "empty_page", f"pages with data rows: {[len(p.data) for p in pages]}")
+    # if-direction: a break that was required is missing when a page with >= 2 data rows exceeds nrow (C03's predicate)
+    open_auto = any(f.sig == "required_break_missing/auto_header_unreserved" for f in findings_mod.load(ID))
+    known, worst, _ = overflows(case, pages, open_auto)
+    res.checks += len(pages)
+    if known:
+        res.fail("required_break_missing", "auto_header_unreserved", known[0][1])
+    if worst:
+        res.fail("required_break_missing", worst[1], worst[2])
     # breaks
     cap_breaks = forced_breaks = 0
     for a, b in zip(pages, pages[1:]):
